@@ -1,12 +1,13 @@
 """C13 — partition shards: theorems (Properties/C13.v) + correspondence of the partition model with
 nextest (xxh64 crate, public Partitioner API, TestList::process_output through hook H4) + an
 independent oracle on the implementation's own answers."""
-import json, os
+import json, os, re
 import vlib
 from vlib import coq_str, coq_list, decode_str
 
 PROP = "C13"
-IMPORTS = ["Base.Str", "Model.Xxh64", "Model.Filter", "Model.Partition", "Proofs.Partition"]
+IMPORTS = ["Base.Str", "Model.Xxh64", "Model.Filter", "Model.Partition", "Proofs.Partition",
+           "Proofs.PartitionWhole"]
 PRELUDE = """
 Definition pre_of (ri : run_ignored) (skips : list str) : str -> bool -> option mismatch :=
   fun nm ign => match filter_ignored ri ign with
@@ -22,6 +23,11 @@ Fixpoint seq_run (pb : pbuilder) (cur : N) (names : list str) : list N :=
   end.
 Definition enc (l : list (list N * (N * N))%type) : list (list N) :=
   map (fun e : (list N * (N * N))%type => fst (snd e) :: snd (snd e) :: fst e) l.
+Definition parse_obs (s : str) : list N :=
+  match parse_partition s with
+  | None => [0]
+  | Some pb => [match pb_kind pb with PCount => 1 | PHash => 2 end; pb_shard pb; pb_total pb]
+  end.
 """
 
 # ---- independent oracle pieces (Python, not the Coq model)
@@ -156,6 +162,31 @@ def oracle_scenario(sc, results):
     return None
 
 
+def f21_class(sc, base_listing):
+    """the class of known finding F21, decided on the unpartitioned listing of the implementation:
+    count sharding and, in this binary, both the non-ignored and the ignored tests that pass all
+    other filters leave a remainder modulo n (only possible under --run-ignored all)."""
+    if sc["kind"] != "count":
+        return False
+    a = sum(1 for _, ign, code in base_listing if ign == 0 and code == 0)
+    b = sum(1 for _, ign, code in base_listing if ign == 1 and code == 0)
+    return a % sc["n"] >= 1 and b % sc["n"] >= 1
+
+
+def oracle_sizes(sc, results):
+    """the literal last clause of the property: count shard sizes differ by at most one per binary.
+    Returns (spread, sizes)."""
+    sizes = [sum(1 for _, _, code in results[m] if code == 0) for m in range(1, sc["n"] + 1)]
+    return max(sizes) - min(sizes), sizes
+
+
+def known_entry():
+    for f in vlib.known_findings().get("findings", []):
+        if f.get("property") == PROP and f.get("id") == "F21":
+            return f["what"]
+    return None
+
+
 def corpus():
     p = os.path.join(vlib.VERIF, "corpus", "C13.json")
     return json.load(open(p)) if os.path.exists(p) else []
@@ -216,7 +247,10 @@ def run(tier, seed):
     # ---- corr:process-output (hook H4) + oracle ------------------------------------------------
     scenarios = [dict(names=["a_i", "b", "c_i", "d"], ign=["a_i", "c_i"], conv="libtest",
                       non_ignored=["a_i", "b", "c_i", "d"], ignored=["a_i", "c_i"], ri="default",
-                      skips=[], kind="count", n=2)] + corpus()
+                      skips=[], kind="count", n=2),
+                 # F21 witness (C13_count_sizes_per_binary_refuted): a, b(ignored), --run-ignored all
+                 dict(names=["a", "b"], ign=["b"], conv="libtest", non_ignored=["a", "b"], ignored=["b"],
+                      ri="all", skips=[], kind="count", n=2)] + corpus()
     while len(scenarios) < (700 if thorough else 90):
         scenarios.append(gen_scenario(r))
     cases, index = [], []
@@ -239,6 +273,8 @@ def run(tier, seed):
             mismatch = (si, c, i, mo)
     distinct = set()
     oracle_fail = None
+    size_checks = []
+    known_what = known_entry()
     for si, sc in enumerate(scenarios):
         if si not in per_sc or len(per_sc[si]) != sc["n"] + 1:
             continue
@@ -248,6 +284,23 @@ def run(tier, seed):
         if sc["conv"] == "dups":
             continue
         why = oracle_scenario(sc, per_sc[si])
+        if why is None and sc["kind"] == "count":
+            spread, sizes = oracle_sizes(sc, per_sc[si])
+            in_class = f21_class(sc, per_sc[si][0])
+            size_checks.append((si, in_class))
+            if spread > 1:
+                if in_class and spread == 2 and sc["ri"] == "all" and known_what is not None:
+                    # exactly the listed failure: both ignored classes restart at shard 1
+                    chk.known_finding(known_what)
+                    chk.count("known_f21_per_binary_spread_2")
+                else:
+                    why = (f"count shard sizes of one binary are {sizes} (differ by {spread}); documented: "
+                           f"differ by at most one per binary"
+                           + ("" if in_class else "; the input is outside the class of known finding F21"))
+            elif in_class:
+                # inside the class the spread is exactly two (C13_count_sizes_per_binary_known_is_two)
+                why = (f"count shard sizes {sizes} of a binary in the F21 class differ by {spread}, "
+                       f"the model proves exactly 2")
         if why and oracle_fail is None:
             oracle_fail = (sc, why, per_sc[si])
     if oracle_fail:
@@ -263,32 +316,100 @@ def run(tier, seed):
     chk.sample(dict(scenario=scenarios[1] if len(scenarios) > 1 else scenarios[0]))
     chk.sample(dict(process_output_case=cases[1], impl=impl[1]))
 
-    # ---- corr:parse-shards ----------------------------------------------------------------------
-    pcs = []
+    # ---- corr:f21-class: the model's class predicate on the same scenarios ------------------------
+    if size_checks and not oracle_fail:
+        exprs = []
+        for si, _ in size_checks:
+            sc = scenarios[si]
+            exprs.append(f"(if f21_class (pre_of {RI[sc['ri']]} {coq_list([coq_str(x) for x in sc['skips']])}) "
+                         f"{coq_list([coq_str(x) for x in sc['non_ignored']])} "
+                         f"{coq_list([coq_str(x) for x in sc['ignored']])} {sc['n']} then 1 else 0)")
+        model = vlib.coq_eval("c13k", IMPORTS, exprs, PRELUDE)
+        for (si, in_class), mo in zip(size_checks, model):
+            chk.count("f21_class_cases")
+            chk.count(f"f21_class={int(in_class)}")
+            if bool(mo) != in_class:
+                chk.violation("broken-obligation", "corr:f21-class",
+                              dict(input=scenarios[si], model_class=mo, observed_class=in_class,
+                                   note="the Coq class predicate of known finding F21 and the class decided "
+                                        "on the implementation's unpartitioned listing disagree"),
+                              no_input=True)
+                break
+
+    # ---- corr:parse-shards (PartitionerBuilder::from_str vs the model of parse_shards) ------------
+    pstrs = []
     for kind in ("hash", "count"):
         for m in (0, 1, 2, 3, 7):
             for n in (0, 1, 2, 3, 7):
-                pcs.append((kind, m, n))
-    impl = vlib.run_impl(binary, "partition", [dict(op="parse", s=f"{k}:{m}/{n}") for k, m, n in pcs])
-    model = vlib.coq_eval("c13p", IMPORTS, [f"(if valid_shards {m} {n} then 1 else 0)" for _, m, n in pcs])
-    for (k, m, n), i, mo in zip(pcs, impl, model):
+                pstrs.append(f"{kind}:{m}/{n}")
+    U = 2 ** 64
+    pstrs += ["", "hash:", "count:", "hash", "count", "hash:1", "count:2", "hash:/", "count:1/", "hash:/2",
+              "count:1/2/3", "hash:1//2", "count:+1/+2", "hash:+1/2", "count:++1/2", "hash:+/1", "count:1/+",
+              "hash:-1/2", "count:1/-2", "hash:01/002", "count:000/000", "hash:0/0", "count:1/0", "hash:0/1",
+              "count: 1/2", "hash:1 /2", "count:1/ 2", "hash:1/2 ", " count:1/2", "count:1/2\n", "hash:\t1/2",
+              "Count:1/2", "HASH:1/2", "hash :1/2", "hash=1/2", "1/2", "count:1_0/20", "hash:1e1/20",
+              "count:0x1/2", "hash:1.0/2", "count:١/٢", "hash:１/２", "count:1/2é", "hash:𝟏/𝟐",
+              f"count:1/{U - 1}", f"count:{U - 1}/{U - 1}", f"hash:1/{U}", f"hash:{U}/{U}", f"count:{U}/1",
+              f"count:1/{U * 10}", f"hash:{U - 1}/{U - 2}", "count:99999999999999999999999999/1",
+              "hash:1/99999999999999999999999999", "count:hash:1/2", "hash:count:1/2", "count:1/2:3"]
+    PCH = ["0", "1", "2", "3", "9", "+", "-", "/", " ", ":", "a", "x", "_", "٣"]
+    for _ in range(1500 if thorough else 250):
+        shape = r.random()
+        if shape < 0.5:      # near-valid: digits with an occasional stray character
+            def num():
+                t = "".join(r.choice("0123456789") for _ in range(r.randint(1, 3)))
+                if r.random() < 0.15:
+                    t = "+" + t
+                if r.random() < 0.12:
+                    k = r.randrange(len(t) + 1)
+                    t = t[:k] + r.choice(PCH) + t[k:]
+                return t
+            body = num() + ("/" if r.random() < 0.9 else "") + num()
+            pre = r.choice(["hash:", "count:", "count:", "hash:", "hash", "count", "Hash:", ""])
+            pstrs.append(pre + body)
+        elif shape < 0.8:    # boundary values around u64::MAX and m vs n
+            n = r.choice([1, 2, 3, U - 2, U - 1, U, U + 1, r.randrange(1, 50)])
+            m = r.choice([0, 1, n - 1, n, n + 1, r.randrange(0, 60)])
+            pstrs.append(f"{r.choice(['hash', 'count'])}:{max(m, 0)}/{n}")
+        else:                # character soup
+            pstrs.append(r.choice(["hash:", "count:", ""]) +
+                         "".join(r.choice(PCH) for _ in range(r.randint(0, 7))))
+    impl = vlib.run_impl(binary, "partition", [dict(op="parse", s=x) for x in pstrs])
+    model = vlib.coq_eval("c13p", IMPORTS, [f"parse_obs {coq_str(x)}" for x in pstrs], PRELUDE)
+    for x, i, mo in zip(pstrs, impl, model):
         chk.count("parse_cases")
-        ok_impl = i[0] != 0
-        if ok_impl != bool(mo) or (ok_impl and (int(i[1]), int(i[2])) != (m, n)):
-            chk.violation("counterexample", "corr:parse-shards",
-                          dict(input=f"{k}:{m}/{n}", impl=i, model=mo,
-                               clause="shards must satisfy 1 <= m <= n"))
+        iv = [int(v) for v in i]
+        chk.count("parse_accepted" if iv[0] else "parse_rejected")
+        if iv != mo:
+            # the documented rule: "hash:M/N" or "count:M/N" with integers 1 <= M <= N
+            documented_ok = bool(re.fullmatch(r"(hash|count):\+?[0-9]+/\+?[0-9]+", x)) and \
+                1 <= int(x.split(":")[1].split("/")[0]) <= int(x.split("/")[1]) < U
+            impl_breaks_rule = (iv[0] != 0) != documented_ok
+            chk.violation("counterexample" if impl_breaks_rule else "broken-obligation", "corr:parse-shards",
+                          dict(input=x, impl=i, model=mo,
+                               clause="--partition must be hash:M/N or count:M/N with 1 <= M <= N (u64)"),
+                          no_input=not impl_breaks_rule)
             break
+        if iv[0] and not (1 <= iv[1] <= iv[2] < U):
+            chk.violation("counterexample", "oracle:parse-shards",
+                          dict(input=x, impl=i, clause="accepted shards must satisfy 1 <= m <= n"))
+            break
+    chk.sample(dict(parse_case=pstrs[60], impl=impl[60]))
 
     chk.assumptions = [
         "other filters are abstracted as an arbitrary function pre(name, ignored) in the theorems",
         "process_output's BTreeMap is modelled as a name-sorted association list",
         "libtest listing convention (all tests without --ignored, ignored ones with it) for the oracle",
+        "whole-listing count theorems assume each listing duplicate-free (scenarios with a repeated name are "
+        "compared model-vs-implementation only)",
+        "the literal clause 'count shard sizes differ by at most one per binary' is evaluated by the oracle; its "
+        "failure on the class F21 (known_findings.json) is reported as KNOWN-FINDING, anything else as a violation",
     ]
     return chk.finish(
         gate, "make -C coq Properties/C13.vo && coqc gen/assump_C13.v (Print Assumptions)",
         ["Coq 8.16.1 kernel + vm_compute", "hand-written model Model/{Xxh64,Filter,Partition}.v tied by "
-         "corr:xxh64, corr:partitioner-seq, corr:process-output (hook H4), corr:parse-shards",
+         "corr:xxh64, corr:partitioner-seq, corr:process-output (hook H4), corr:parse-shards (PartitionerBuilder::from_str "
+         "on well-formed and malformed strings), corr:f21-class",
          "Python generators/canonicalisers in props/C13.py", "harness/src/partition.rs"],
         dict(evaluations=sum(v for k, v in chk.counts.items() if k.endswith("_cases")),
              distinct_nontrivial=len(distinct),
